@@ -2,66 +2,108 @@
    settings. Property theorems only; each is closed by [exact] of a lemma
    proved in Proofs/C03.v and followed by Print Assumptions.
 
-   [update/run ... HEAD] is Filter.update with its three repairs
-   (fixes_proposed/C03-removed-range-keys.diff = 1ad19c0,
-   C03-valueerror-before-mutation.diff = 2db14c2, C03-range-on-late-feature.diff);
-   [V0], [V1], [V2] are the code before the first, second and third repair.
-   The set of scalar features of the dataset is part of the state (temporary
-   features are added and removed by AddFeat/DelFeat). [err w' = false] says that the application did not
-   raise ValueError (C03_apply_raises_iff: it raises exactly when some range
-   has only one of its two keys). [hashf] (PolygonFilter.hash) and [choice] (the seeded
-   np.random.choice behind "limit events") are oracles: their hypotheses are
-   explicit and are checked on the implementation by harness/c03.py. *)
+   [update/run ... HEAD] is Filter.update as it is in /repo (with the repairs
+   1ad19c0, 2db14c2, 1895a86 = fixes_proposed/C03-removed-range-keys,
+   -valueerror-before-mutation, -range-on-late-feature and
+   C03-limit-overflow). [hashf] (PolygonFilter.hash of a filter) and [choice]
+   (the seeded np.random.choice behind "limit events") are oracles: their
+   hypotheses are explicit and are checked on the implementation by
+   harness/c03.py. [known] are the feature names dclab knows.
+   [err w' = false]: the application did not raise ValueError
+   (C03_apply_raises_iff says exactly when it does).
+   [stale w' = []]: GHOST condition (Model/C03.v, world): no feature whose DATA
+   were replaced (set_temporary_feature on an existing temporary feature,
+   op ReplaceTemp) still has its old box filter. Replacing feature data is not
+   an operation of the property's quantifier; for histories made of the
+   property's operations the condition holds by C03_filter_history
+   (no_replace), after a replacement it is re-established by
+   apply_filter(force=[feature]) (C03_force_refreshes).
+
+   The three *_refuted theorems at the end are about EARLIER versions of
+   Filter.update (V0, V1, V2) that no longer exist in /repo: they document the
+   three repaired defects (DESIGN.md section 10) and are tied to no code. *)
 From Coq Require Import ZArith List Bool.
 From Verif Require Import Model.C03 Proofs.C03.
 Import ListNotations.
 Open Scope Z_scope.
 
-(* After ANY history of setting changes and applications (any length, any
-   order, including applications that raised), one more application that does
-   not raise leaves all four filter arrays equal to the stateless
-   specification of the current settings. *)
+(* After ANY history of the property's operations (set/change/remove range
+   keys, polygons, switches, limit, manual edits, temporary features coming
+   and going, reset, applications incl. ones that raised; any length and
+   order), one more application that does not raise leaves all four filter
+   arrays equal to the stateless specification of the current settings. *)
 Theorem C03_filter_history :
-  forall (hashf : Z -> bool -> Z) (choice : Z -> Z -> list Z)
-         (rows : list row),
-    (forall v b v' b', hashf v b = hashf v' b' -> v = v' /\ b = b') ->
+  forall (hashf : Z -> Z -> bool -> Z) (choice : Z -> Z -> list Z)
+         (rows : list row) (known : list Z),
+    (forall id v b v' b', hashf id v b = hashf id v' b' -> v = v' /\ b = b') ->
     forall (reg0 : registry) (feats0 : list Z) (ops : list op) (force : list Z),
-      let w := run hashf choice rows HEAD (init_world rows reg0 feats0) ops in
-      let w' := update hashf choice rows HEAD w force in
+      no_replace ops = true ->
+      let w := run hashf choice rows known HEAD (init_world rows reg0 feats0) ops in
+      let w' := update hashf choice rows known HEAD w force in
       err w' = false ->
       a_all (flt w') = spec_all choice rows w /\
       a_box (flt w') = spec_box rows w /\
       a_polygon (flt w') = spec_polygon rows w /\
       a_invalid (flt w') = spec_invalid rows w.
-Proof. exact history_ok. Qed.
+Proof. exact history_no_replace. Qed.
 Print Assumptions C03_filter_history.
 
-(* An application raises exactly when the current settings hold a range with
-   only one of its two keys, whatever happened before. *)
-Theorem C03_apply_raises_iff :
-  forall (hashf : Z -> bool -> Z) (choice : Z -> Z -> list Z)
-         (rows : list row),
-    (forall v b v' b', hashf v b = hashf v' b' -> v = v' /\ b = b') ->
+(* The same for histories that also replace feature data, provided no replaced
+   feature still has its old box filter. *)
+Theorem C03_filter_history_with_data_replacement :
+  forall (hashf : Z -> Z -> bool -> Z) (choice : Z -> Z -> list Z)
+         (rows : list row) (known : list Z),
+    (forall id v b v' b', hashf id v b = hashf id v' b' -> v = v' /\ b = b') ->
     forall (reg0 : registry) (feats0 : list Z) (ops : list op) (force : list Z),
-      let w := run hashf choice rows HEAD (init_world rows reg0 feats0) ops in
-      err (update hashf choice rows HEAD w force) = true
-      <-> exists f, half_set (rng (cfg w)) f = true.
+      let w := run hashf choice rows known HEAD (init_world rows reg0 feats0) ops in
+      let w' := update hashf choice rows known HEAD w force in
+      err w' = false -> stale w' = [] ->
+      a_all (flt w') = spec_all choice rows w /\
+      a_box (flt w') = spec_box rows w /\
+      a_polygon (flt w') = spec_polygon rows w /\
+      a_invalid (flt w') = spec_invalid rows w.
+Proof. exact history_ok. Qed.
+Print Assumptions C03_filter_history_with_data_replacement.
+
+(* apply_filter(force=...) naming every replaced feature makes the guard true. *)
+Theorem C03_force_refreshes :
+  forall (hashf : Z -> Z -> bool -> Z) (choice : Z -> Z -> list Z)
+         (rows : list row) (known : list Z) (w : world) (force : list Z),
+    (forall f, In f (stale w) -> In f force) ->
+    err (update hashf choice rows known HEAD w force) = false ->
+    stale (update hashf choice rows known HEAD w force) = [].
+Proof. exact forced_not_stale. Qed.
+Print Assumptions C03_force_refreshes.
+
+(* An application raises exactly when `force` names an unknown feature or the
+   current settings hold a range with only one of its two keys, whatever
+   happened before (in particular never because of the event limit). *)
+Theorem C03_apply_raises_iff :
+  forall (hashf : Z -> Z -> bool -> Z) (choice : Z -> Z -> list Z)
+         (rows : list row) (known : list Z),
+    (forall id v b v' b', hashf id v b = hashf id v' b' -> v = v' /\ b = b') ->
+    forall (reg0 : registry) (feats0 : list Z) (ops : list op) (force : list Z),
+      let w := run hashf choice rows known HEAD (init_world rows reg0 feats0) ops in
+      err (update hashf choice rows known HEAD w force) = true
+      <-> (exists f, In f force /\ ~ In f known)
+          \/ exists f, half_set (rng (cfg w)) f = true.
 Proof. exact history_raises. Qed.
 Print Assumptions C03_apply_raises_iff.
 
-(* With an event limit set, exactly min(limit, number of qualifying events)
-   events remain after any history, and every one of them qualifies. *)
+(* With an event limit set (any positive integer), exactly min(limit, number
+   of qualifying events) events remain after any history, and every one of
+   them qualifies. *)
 Theorem C03_limit_exact :
-  forall (hashf : Z -> bool -> Z) (choice : Z -> Z -> list Z)
-         (rows : list row),
-    (forall v b v' b', hashf v b = hashf v' b' -> v = v' /\ b = b') ->
+  forall (hashf : Z -> Z -> bool -> Z) (choice : Z -> Z -> list Z)
+         (rows : list row) (known : list Z),
+    (forall id v b v' b', hashf id v b = hashf id v' b' -> v = v' /\ b = b') ->
     forall (reg0 : registry) (feats0 : list Z) (ops : list op) (force : list Z),
       (forall m k, 0 < k < m ->
          NoDup (choice m k) /\ Z.of_nat (length (choice m k)) = k /\
          Forall (fun i => 0 <= i < m) (choice m k)) ->
-      let w := run hashf choice rows HEAD (init_world rows reg0 feats0) ops in
-      let w' := update hashf choice rows HEAD w force in
-      err w' = false ->
+      let w := run hashf choice rows known HEAD (init_world rows reg0 feats0) ops in
+      let w' := update hashf choice rows known HEAD w force in
+      err w' = false -> stale w' = [] ->
       enable (cfg w) = true -> 0 < limit (cfg w) ->
       count_true (a_all (flt w'))
       = Z.min (limit (cfg w)) (count_true (spec_qual rows w)) /\
@@ -72,72 +114,99 @@ Print Assumptions C03_limit_exact.
 
 (* Without a limit the selection is exactly the set of qualifying events. *)
 Theorem C03_no_limit_all_qualifying :
-  forall (hashf : Z -> bool -> Z) (choice : Z -> Z -> list Z)
-         (rows : list row),
-    (forall v b v' b', hashf v b = hashf v' b' -> v = v' /\ b = b') ->
+  forall (hashf : Z -> Z -> bool -> Z) (choice : Z -> Z -> list Z)
+         (rows : list row) (known : list Z),
+    (forall id v b v' b', hashf id v b = hashf id v' b' -> v = v' /\ b = b') ->
     forall (reg0 : registry) (feats0 : list Z) (ops : list op) (force : list Z),
-      let w := run hashf choice rows HEAD (init_world rows reg0 feats0) ops in
-      err (update hashf choice rows HEAD w force) = false ->
+      let w := run hashf choice rows known HEAD (init_world rows reg0 feats0) ops in
+      err (update hashf choice rows known HEAD w force) = false ->
+      stale (update hashf choice rows known HEAD w force) = [] ->
       enable (cfg w) = true -> limit (cfg w) <= 0 ->
-      a_all (flt (update hashf choice rows HEAD w force))
+      a_all (flt (update hashf choice rows known HEAD w force))
       = spec_qual rows w.
 Proof. exact history_no_limit. Qed.
 Print Assumptions C03_no_limit_all_qualifying.
 
-(* With filters disabled every event is selected. *)
+(* With filters disabled every event is selected (also with stale features). *)
 Theorem C03_disabled_selects_all :
-  forall (hashf : Z -> bool -> Z) (choice : Z -> Z -> list Z)
-         (rows : list row),
-    (forall v b v' b', hashf v b = hashf v' b' -> v = v' /\ b = b') ->
+  forall (hashf : Z -> Z -> bool -> Z) (choice : Z -> Z -> list Z)
+         (rows : list row) (known : list Z),
     forall (reg0 : registry) (feats0 : list Z) (ops : list op) (force : list Z),
-      let w := run hashf choice rows HEAD (init_world rows reg0 feats0) ops in
-      err (update hashf choice rows HEAD w force) = false ->
+      let w := run hashf choice rows known HEAD (init_world rows reg0 feats0) ops in
+      err (update hashf choice rows known HEAD w force) = false ->
       enable (cfg w) = false ->
-      a_all (flt (update hashf choice rows HEAD w force))
+      a_all (flt (update hashf choice rows known HEAD w force))
       = map (fun _ => true) rows.
 Proof. exact history_disabled. Qed.
 Print Assumptions C03_disabled_selects_all.
 
-(* Reproducibility: two histories that end in the same settings select the
-   same events, whatever happened before. *)
+(* Reproducibility: two histories that end in the same settings and data
+   select the same events, whatever happened before. (That the seeded choice
+   is a function of pool size and limit is the oracle's type; the harness
+   checks it on the implementation.) *)
 Theorem C03_selection_depends_on_settings_only :
-  forall (hashf : Z -> bool -> Z) (choice : Z -> Z -> list Z)
-         (rows : list row),
-    (forall v b v' b', hashf v b = hashf v' b' -> v = v' /\ b = b') ->
+  forall (hashf : Z -> Z -> bool -> Z) (choice : Z -> Z -> list Z)
+         (rows : list row) (known : list Z),
+    (forall id v b v' b', hashf id v b = hashf id v' b' -> v = v' /\ b = b') ->
     forall (reg1 : registry) (feats1 : list Z) (ops1 : list op) (force1 : list Z)
            (reg2 : registry) (feats2 : list Z) (ops2 : list op) (force2 : list Z),
-      let w1 := run hashf choice rows HEAD (init_world rows reg1 feats1) ops1 in
-      let w2 := run hashf choice rows HEAD (init_world rows reg2 feats2) ops2 in
+      let w1 := run hashf choice rows known HEAD (init_world rows reg1 feats1) ops1 in
+      let w2 := run hashf choice rows known HEAD (init_world rows reg2 feats2) ops2 in
       cfg w1 = cfg w2 -> reg w1 = reg w2 -> manual (flt w1) = manual (flt w2) ->
-      feats w1 = feats w2 ->
-      err (update hashf choice rows HEAD w1 force1) = false ->
-      err (update hashf choice rows HEAD w2 force2) = false ->
-      a_all (flt (update hashf choice rows HEAD w1 force1))
-      = a_all (flt (update hashf choice rows HEAD w2 force2)).
+      feats w1 = feats w2 -> fcol w1 = fcol w2 ->
+      err (update hashf choice rows known HEAD w1 force1) = false ->
+      err (update hashf choice rows known HEAD w2 force2) = false ->
+      stale (update hashf choice rows known HEAD w1 force1) = [] ->
+      stale (update hashf choice rows known HEAD w2 force2) = [] ->
+      a_all (flt (update hashf choice rows known HEAD w1 force1))
+      = a_all (flt (update hashf choice rows known HEAD w2 force2)).
 Proof. exact history_reproducible. Qed.
 Print Assumptions C03_selection_depends_on_settings_only.
 
 (* The specification of one range is what the property text says: NaN is never
-   inside, reversed bounds are swapped, bounds are inclusive. *)
+   inside, reversed bounds are swapped, bounds are inclusive; a range is
+   inactive when min equals max or a key is missing, otherwise it is the
+   inclusive interval test on the feature's current data. *)
 Theorem C03_spec_range_semantics :
   (forall lo hi, in_range lo hi FNaN = false) /\
   (forall lo hi x, fisnan lo = false -> fisnan hi = false ->
                    in_range lo hi x = in_range hi lo x) /\
   (forall lo hi, fle lo hi = true ->
-                 in_range lo hi lo = true /\ in_range lo hi hi = true).
-Proof. exact (conj in_range_nan (conj in_range_swap in_range_inclusive)). Qed.
+                 in_range lo hi lo = true /\ in_range lo hi hi = true) /\
+  (forall fc rg f r,
+      (forall lo hi, rget rg f = (Some lo, Some hi) -> feq lo hi = true) ->
+      spec_feat fc rg f r = true) /\
+  (forall fc rg f r lo hi,
+      rget rg f = (Some lo, Some hi) -> feq lo hi = false ->
+      spec_feat fc rg f r = in_range lo hi (val r (colof fc f))).
+Proof.
+  exact (conj in_range_nan (conj in_range_swap (conj in_range_inclusive
+           (conj spec_feat_inactive spec_feat_active)))).
+Qed.
 Print Assumptions C03_spec_range_semantics.
 
-(* The three repaired defects: each earlier version of Filter.update does NOT
-   satisfy the history theorem (vm_compute witnesses; the same histories are
-   corpus cases of the harness).
+(* Outside the property's operations: after the data of a feature were
+   replaced, an application WITHOUT force keeps the box filter of the old data
+   (the cache carries no data hash). Stated so that the guard [stale = []]
+   above is known to be necessary. *)
+Theorem C03_replaced_data_unforced_stale :
+  forall (hashf : Z -> Z -> bool -> Z) (choice : Z -> Z -> list Z),
+    let w := run hashf choice repl_rows [0; 1] HEAD (init_world repl_rows [] [0]) repl_ops in
+    let w' := update hashf choice repl_rows [0; 1] HEAD w [] in
+    err w' = false /\ stale w' = [1] /\ a_all (flt w') <> spec_all choice repl_rows w.
+Proof. exact replaced_data_unforced_stale. Qed.
+Print Assumptions C03_replaced_data_unforced_stale.
+
+(* ---- earlier versions of Filter.update (not in /repo any more) ------------
+   Each does NOT satisfy the history theorem (vm_compute witnesses; the same
+   histories are corpus cases of the harness).
    Before 1ad19c0: set a range, apply, delete the range; the next application
    keeps the old box filter. *)
 Theorem C03_filter_history_unrepaired_refuted :
-  forall (hashf : Z -> bool -> Z) (choice : Z -> Z -> list Z),
-    let w := run hashf choice refute_rows V0
+  forall (hashf : Z -> Z -> bool -> Z) (choice : Z -> Z -> list Z),
+    let w := run hashf choice refute_rows [0; 1] V0
                  (init_world refute_rows [] [0]) refute_ops in
-    let w' := update hashf choice refute_rows V0 w [] in
+    let w' := update hashf choice refute_rows [0; 1] V0 w [] in
     err w' = false /\ a_all (flt w') <> spec_all choice refute_rows w.
 Proof. exact unrepaired_refuted. Qed.
 Print Assumptions C03_filter_history_unrepaired_refuted.
@@ -147,9 +216,9 @@ Print Assumptions C03_filter_history_unrepaired_refuted.
    application raises after the first box filter was recomputed; [1,2] is
    restored and the lone key removed: the [3,4] mask stays. *)
 Theorem C03_filter_history_sequential_raise_refuted :
-  forall (hashf : Z -> bool -> Z) (choice : Z -> Z -> list Z),
-    let w := run hashf choice exc_rows V1 (init_world exc_rows [] [0; 1]) exc_ops in
-    let w' := update hashf choice exc_rows V1 w [] in
+  forall (hashf : Z -> Z -> bool -> Z) (choice : Z -> Z -> list Z),
+    let w := run hashf choice exc_rows [0; 1] V1 (init_world exc_rows [] [0; 1]) exc_ops in
+    let w' := update hashf choice exc_rows [0; 1] V1 w [] in
     err w' = false /\ a_all (flt w') <> spec_all choice exc_rows w.
 Proof. exact sequential_raise_refuted. Qed.
 Print Assumptions C03_filter_history_sequential_raise_refuted.
@@ -157,9 +226,9 @@ Print Assumptions C03_filter_history_sequential_raise_refuted.
 (* Without the late-feature repair: a range configured and applied before its
    (temporary) feature exists is not applied once the feature exists. *)
 Theorem C03_filter_history_late_feature_refuted :
-  forall (hashf : Z -> bool -> Z) (choice : Z -> Z -> list Z),
-    let w := run hashf choice exc_rows V2 (init_world exc_rows [] [0]) late_ops in
-    let w' := update hashf choice exc_rows V2 w [] in
+  forall (hashf : Z -> Z -> bool -> Z) (choice : Z -> Z -> list Z),
+    let w := run hashf choice exc_rows [0; 1] V2 (init_world exc_rows [] [0]) late_ops in
+    let w' := update hashf choice exc_rows [0; 1] V2 w [] in
     err w' = false /\ a_all (flt w') <> spec_all choice exc_rows w.
 Proof. exact late_feature_refuted. Qed.
 Print Assumptions C03_filter_history_late_feature_refuted.
